@@ -160,7 +160,7 @@ func (repsim) Generate(rng *Rand, prop, tier string) *Script {
 	case "C10":
 		w["cw"], w["mode"], w["setrev"], w["reopen"] = 6, 5, 3, 6
 	case "C11":
-		w["rm"], w["clean"], w["mark"], w["ckpt"], w["snap"] = 10, 8, 4, 5, 16
+		w["rm"], w["clean"], w["mark"], w["ckpt"], w["snap"] = 10, 10, 8, 5, 16
 	case "C12":
 		w["reuse"] = 3
 		w["bad"], w["snap"], w["rm"], w["revert"], w["resize"], w["reopen"], w["mark"], w["ckpt"] = 8, 12, 6, 5, 3, 5, 4, 3
@@ -173,7 +173,7 @@ func (repsim) Generate(rng *Rand, prop, tier string) *Script {
 	for _, k := range []string{"rm", "mark", "clean", "revert", "reload", "resize", "mode", "rebuilding", "setrev", "cw", "close", "rest", "bad", "sync"} {
 		if rng.Bool(30) {
 			switch {
-			case prop == "C11" && (k == "rm" || k == "clean"):
+			case prop == "C11" && (k == "rm" || k == "clean" || k == "mark"):
 			case prop == "C06" && (k == "clean" || k == "mark"):
 			case prop == "C16" && k == "resize":
 			case prop == "C17" && (k == "close" || k == "rest" || k == "mode"):
